@@ -94,7 +94,7 @@ def run(ctx):
     n = 30000 if thorough else 2000
     p = ctx.harness(["rng", "record", "--n", n, "--out", ctx.path("trace.ndjson"), "--cases", ctx.path("cases.ndjson"),
                      "--batch", 40 if thorough else 20, "--shards", 12,
-                     "--extreme-seeds", 40000 if thorough else 6000, "--extreme-depth", 4000], timeout=1500)
+                     "--extreme-seeds", 100000 if thorough else 20000, "--extreme-depth", 10000], timeout=1500)
     stats = json.loads(p.stdout.strip().splitlines()[-1])
     n_gen, n = n, stats["cases"]
     res = judge(ctx, rep, ctx.path("trace.ndjson"), ctx.path("cases.ndjson"), "RngTrace (%d cases x 4 runs)" % n)
